@@ -112,6 +112,8 @@ def call_plan(kind, rng):
             ('tracer_diffusivity_center_of_mass', (), {'dimensions': int(rng.integers(1, 4))}),
             ('haven_ratio', (), {'dimensions': int(rng.integers(1, 4))}),
             ('tracer_conductivity', (), {'z_ion': int(rng.integers(1, 4)), 'dimensions': int(rng.integers(1, 4))}),
+            # anions: negative charge numbers (hash(-1) == hash(-2) in CPython)
+            ('tracer_conductivity', (), {'z_ion': int(rng.choice([-1, -2, -3])), 'dimensions': int(rng.integers(1, 4))}),
             ('attempt_frequency', (), {}),
             ('vibration_amplitude', (), {}),
             ('amplitudes', (), {}),
@@ -136,6 +138,8 @@ def call_plan(kind, rng):
             ('collective', (), {'max_dist': [0, 0.0][int(rng.integers(2))]}),
             ('collective', ([0, 0.0][int(rng.integers(2))],), {}),
             ('to_graph', (), {'min_e_act': 0.0}),
+            ('to_graph', (), {'min_e_act': float(rng.choice([-1.0, -2.0]))}),
+            ('to_graph', (float(rng.choice([-1, -2])),), {}),
             ('to_graph', (), {'max_e_act': 0}),
         ]
     else:
